@@ -99,40 +99,34 @@ Theorem C13_pending_query_complete : forall c st i tx key r,
 Proof. exact pending_query_complete. Qed.
 Print Assumptions C13_pending_query_complete.
 
-(* ... and is exact when the answer does not come from memory: the code asks the store only (qmem = false)
-   or the instance holds no in-memory copy of an uncaptured job with that key *)
-Theorem C13_pending_query_exact : forall c st i tx key,
+(* ... and, for the code as it is (query_uses_memory is generated from default_scheduler.py on every run and the
+   proof is eq_refl : query_uses_memory = false), EXACT: it answers True iff the caller can see an uncaptured row
+   with that key. Re-introducing the in-memory shortcut makes this theorem fail to compile. *)
+Theorem C13_pending_query_exact : forall p t b st i tx key,
+  has_jobs (mkCfg p t b query_uses_memory) st i tx key false = true <->
+  exists r, In r (visible st tx) /\ rkey r = key /\ rcap r = None.
+Proof. exact (pending_query_exact_store_only query_uses_memory eq_refl). Qed.
+Print Assumptions C13_pending_query_exact.
+
+(* the general form (any variant): exact when the answer does not come from memory *)
+Theorem C13_pending_query_exact_if_not_from_memory : forall c st i tx key,
   (qmem c = false \/ forall m, In m (mem st) -> mi m = i -> mkey m = key -> mcap m <> None) ->
   (has_jobs c st i tx key false = true <->
    exists r, In r (visible st tx) /\ rkey r = key /\ rcap r = None).
 Proof. exact pending_query_exact. Qed.
-Print Assumptions C13_pending_query_exact.
+Print Assumptions C13_pending_query_exact_if_not_from_memory.
 
-(* FINDING: with the in-memory shortcut the property text fails - the in-memory copy of a job whose
-   transaction rolled back is reported as pending although no such job exists (any configuration) *)
-Theorem C13_pending_query_refuted : forall p t b,
+(* REGRESSION statement about the behaviour before fix 75ec1054 (variant qmem = true, finding F8): with the
+   in-memory shortcut the copy of a job whose transaction rolled back is reported as pending although no such job
+   exists, in any configuration. The same witness is corpus case regression-F8-rollback-leaves-in-memory-copy. *)
+Theorem C13_pending_query_old_shortcut_reports_rolled_back_job : forall p t b,
   let c := mkCfg p t b true in
   let st := run c phantom_steps init in
   has_jobs c st 0%nat None 1%nat false = true /\
   (forall r, In r (visible st None) -> rkey r <> 1%nat) /\
   (exists j, In j (rolled st) /\ In (mkMem 0%nat j 1%nat None) (mem st)).
 Proof. exact pending_query_refuted. Qed.
-Print Assumptions C13_pending_query_refuted.
-
-(* for the code as it is now (query_uses_memory is generated from default_scheduler.py on every run):
-   either it asks the store only and the query is exact, or it uses the shortcut and the witness applies *)
-Theorem C13_pending_query_current_code :
-  (query_uses_memory = false /\ forall p t b st i tx key,
-     has_jobs (mkCfg p t b query_uses_memory) st i tx key false = true <->
-     exists r, In r (visible st tx) /\ rkey r = key /\ rcap r = None) \/
-  (query_uses_memory = true /\ forall p t b,
-     let c := mkCfg p t b query_uses_memory in
-     let st := run c phantom_steps init in
-     has_jobs c st 0%nat None 1%nat false = true /\
-     (forall r, In r (visible st None) -> rkey r <> 1%nat) /\
-     (exists j, In j (rolled st) /\ In (mkMem 0%nat j 1%nat None) (mem st))).
-Proof. exact (pending_query_status query_uses_memory). Qed.
-Print Assumptions C13_pending_query_current_code.
+Print Assumptions C13_pending_query_old_shortcut_reports_rolled_back_job.
 
 (* ================= legacy scheduler ================= *)
 
